@@ -193,6 +193,85 @@ def validate_group(v, runs, d, doc, tag):
     return validated, states, rejected
 
 
+def corruption_selftest(runs, d, module, cfg, corruptions):
+    """Binding self-test: a recorded (accepted) run with one field corrupted / one event dropped MUST be rejected
+    by the trace specification, otherwise the trace check has no teeth (machinery failure, not a verdict)."""
+    import copy
+    jobs = []
+    for name, pick, mutate in corruptions:
+        run = next((r_ for r_ in runs if pick(r_)), None)
+        if run is None:
+            continue
+        rows = copy.deepcopy(run)
+        if mutate(rows):
+            jobs.append((name, rows))
+    res, errs = [None] * len(jobs), []
+    vlib.spec_copy()
+
+    def work(i):
+        try:
+            res[i] = trace_check(module, cfg, jobs[i][1], d, tag="corrupt%d" % i)[0]
+        except Exception as ex:
+            errs.append(ex)
+    th = [threading.Thread(target=work, args=(i,)) for i in range(len(jobs))]
+    for t in th:
+        t.start()
+    for t in th:
+        t.join()
+    if errs:
+        raise errs[0]
+    for (name, _), ok in zip(jobs, res):
+        if ok:
+            raise vlib.MachineryError("binding self-test: corrupted trace (%s) was accepted by %s" % (name, module))
+    return len(jobs)
+
+
+def _drop_first(rows, pred):
+    for i, r_ in enumerate(rows):
+        if pred(r_):
+            del rows[i]
+            return True
+    return False
+
+
+def _alter_first(rows, pred, f):
+    for r_ in rows:
+        if pred(r_):
+            f(r_)
+            return True
+    return False
+
+
+C20_CORRUPTIONS = [
+    ("metadata token of one received scenario call altered",
+     lambda run: run[0].get("kind") == "scn",
+     lambda rows: _alter_first(rows, lambda r_: r_["ev"] == "Recv" and r_["md"], lambda r_: r_["md"][0].__setitem__("tok", "x" + r_["md"][0]["tok"]))),
+    ("one received payload field dropped",
+     lambda run: run[0].get("kind") == "json",
+     lambda rows: _alter_first(rows, lambda r_: r_["ev"] == "Recv" and len(r_["fields"]) > 1, lambda r_: r_["fields"].pop())),
+    ("sample of a bad entry dropped",
+     lambda run: run[0].get("kind") == "json",
+     lambda rows: _drop_first(rows, lambda r_: r_["ev"] == "Sample" and r_["code"] != 200)),
+    ("a bad entry's sample reported as 200",
+     lambda run: run[0].get("kind") == "json",
+     lambda rows: _alter_first(rows, lambda r_: r_["ev"] == "Sample" and r_["code"] != 200, lambda r_: r_.__setitem__("code", 200))),
+    ("one entry never shot",
+     lambda run: run[0].get("kind") == "json" and run[0].get("inst") == 1,
+     lambda rows: _drop_entry(rows)),
+]
+
+
+def _drop_entry(rows):
+    # remove ShootBegin..ShootEnd of the first good entry of a 1-instance run (its neighbours stay)
+    for i, r_ in enumerate(rows):
+        if r_["ev"] == "ShootBegin":
+            j = next(k for k in range(i, len(rows)) if rows[k]["ev"] == "ShootEnd" and rows[k]["gun"] == r_["gun"])
+            if any(x["ev"] == "Recv" for x in rows[i:j]):
+                del rows[i:j + 1]
+                return True
+    return False
+
+
 def drive(b, doc, d, name="cases"):
     cases = os.path.join(d, name + ".json")
     json.dump(doc, open(cases, "w"))
@@ -232,6 +311,7 @@ def run(tier, v):
     t0 = time.time()
     validated, tstates, rejected = validate(v, rows, d, doc)
     vlib.log("trace validation: %.1fs (%d lines, %d states)" % (time.time() - t0, len(rows), tstates))
+    corrupted = corruption_selftest(split_runs(rows), d, "TraceGrpcWire", "TraceGrpcWire.cfg", C20_CORRUPTIONS) if rejected == 0 else 0
     shots = sum(1 for r_ in rows if r_["ev"] == "ShootBegin")
     recvs = sum(1 for r_ in rows if r_["ev"] == "Recv")
     shot_names = {(r_.get("ammo", "")[:1], r_.get("ammo")) for r_ in rows if r_["ev"] == "ShootBegin"}
@@ -251,7 +331,7 @@ def run(tier, v):
         "abstract_entries": len(ents), "bad_entries": sum(1 for e in ents if e["bad"] != "none"),
         "runs": len(doc["runs"]), "runs_rejected": rejected,
         "calls_received": recvs, "trace_lines": len(rows), "trace_spec_states": tstates,
-        "negative_controls": ["inplace", "abortonbad", "dropmd"], "design_config": jobs[0][1],
+        "negative_controls": ["inplace", "abortonbad", "dropmd"], "corrupted_traces_rejected": corrupted, "design_config": jobs[0][1],
     }
     return "model_checking", cov, [
         "exhaustive TLC bounds: files of <= 2 entries over 4 grpc/json and 3 scenario classes, <= %d instances" % (3 if thorough else 2),
